@@ -1512,3 +1512,20 @@ B('pkgA_conflict_round_for_inner_phases_without_preprovided', ['C02'], 'R02.e',
       "        for source, arg_list in args_dict.items():\n"
       "            for arg_name in arg_list:\n"
       "                provided_by[arg_name].append(source)\n", "")))
+
+# ------------------------------------------------------------------ round 7: inject with a single exit (filter unless **kwargs)
+_INJ_TAIL_OLD = ("    if fb.varkw:\n"
+                 "        return f(**all_kwargs)\n"
+                 "\n"
+                 "    kwargs = dict([(k, v) for k, v in all_kwargs.items() if k in fb.get_arg_names()])\n"
+                 "    return f(**kwargs)\n")
+_INJ_SINGLE_EXIT = ("    if %s:\n"
+                    "        declared = fb.get_arg_names()\n"
+                    "        all_kwargs = {k: v for k, v in all_kwargs.items() if k in declared}\n"
+                    "    return f(**all_kwargs)\n")
+T('pkgA_twin_inject_single_exit_filter', ['C02'],
+  (S, _INJ_TAIL_OLD, _INJ_SINGLE_EXIT % 'not fb.varkw'))
+B('pkgA_inject_single_exit_guard_inverted', ['C02'], 'R02.b',
+  (S, _INJ_TAIL_OLD, _INJ_SINGLE_EXIT % 'fb.varkw'))
+B('pkgA_inject_single_exit_touched_after_filter', ['C02'], 'R02.b',
+  (S, _INJ_TAIL_OLD, (_INJ_SINGLE_EXIT % 'not fb.varkw').replace("    return f(", "    all_kwargs.update(injectables)\n    return f(")))
